@@ -195,6 +195,7 @@ fn budget(prop: &str, tier: &str, seed: u64, scale: f64) -> Budget {
             sweeps.push(sweeps::dimension_aliases("C05", seed));
             sweeps.push(sweeps::extreme_widths("C05"));
             sweeps.push(sweeps::framed_symbols("C05", seed));
+            sweeps.push(sweeps::huge_blank_arrays("C05"));
             sweeps.push(sweeps::c05_unicode_encodings());
         }
         "C08" => {
@@ -210,6 +211,7 @@ fn budget(prop: &str, tier: &str, seed: u64, scale: f64) -> Budget {
             sweeps.push(sweeps::dimension_aliases("C08", seed));
             sweeps.push(sweeps::extreme_widths("C08"));
             sweeps.push(sweeps::framed_symbols("C08", seed));
+            sweeps.push(sweeps::huge_blank_arrays("C08"));
             sweeps.push(sweeps::c08_adjacent_fixed_pairs(seed));
             sweeps.push(sweeps::c08_surplus_codewords(seed));
         }
